@@ -163,7 +163,10 @@ void qb_rb_close(qb_ringbuffer_t *rb)
 }
 void qb_rb_force_close(qb_ringbuffer_t *rb) { qb_rb_close(rb); }
 void *qb_rb_shared_user_data_get(qb_ringbuffer_t *rb) { static int32_t fc; (void)rb; return &fc; }
-ssize_t qb_rb_chunks_used(qb_ringbuffer_t *rb) { (void)rb; return 0; }
+#ifndef QLEN
+#define QLEN 0            /* requests still queued in the request ring when the client dies */
+#endif
+ssize_t qb_rb_chunks_used(qb_ringbuffer_t *rb) { (void)rb; return QLEN; }
 
 /* ---- service callbacks ---- */
 static int accept_calls, created_calls, destroyed_calls, msg_calls;
@@ -315,6 +318,7 @@ void harness(void)
  * PART 3 (property C03, server side): the client of an established shared-memory connection
  * dies.  DEATH = 1: the loop reports POLLHUP; 2: POLLIN with end-of-file on the setup socket;
  * 3: POLLNVAL.  APP_REF = 1: the application holds a reference of its own and drops it later.
+ * FC: request flow control (rate limit OFF) is on at that moment; QLEN: requests still queued (POLLHUP / POLLNVAL only).
  */
 #ifndef DEATH
 #define DEATH 1
@@ -348,6 +352,9 @@ void harness(void)
 	PROP(r == 0 && conn0 != NULL && created_calls == 1 && nring_opened == 3 && gdir.exists, "harness: connection established over three rings");
 	if (r != 0 || conn0 == NULL) return;
 	if (APP_REF) qb_ipcs_connection_ref(conn0);
+#ifdef FC
+	qb_ipcs_request_rate_limit(svc, QB_IPCS_RATE_OFF);          /* request flow control is on when the client dies */
+#endif
 
 	/* the client process dies */
 	int32_t dr;
